@@ -89,6 +89,42 @@ type MK struct {
 	M map[K]string `plenc:"1"`
 }
 
+// MKP is MK in the protobuf map form (another reader, same scratch pool).
+type MKP struct {
+	M map[K]string `plenc:"1,proto"`
+}
+
+// Every has one field per codec family; used for steady-state concurrency scenarios.
+type Every struct {
+	I   int               `plenc:"1"`
+	IF  int64             `plenc:"2,flat"`
+	U   uint32            `plenc:"3"`
+	F   float64           `plenc:"4"`
+	F32 float32           `plenc:"5"`
+	B   bool              `plenc:"6"`
+	S   string            `plenc:"7"`
+	SI  string            `plenc:"8,intern"`
+	By  []byte            `plenc:"9"`
+	T   time.Time         `plenc:"10"`
+	PI  *int              `plenc:"11"`
+	PS  *In               `plenc:"12"`
+	In  In                `plenc:"13"`
+	LI  []int             `plenc:"14"`
+	LF  []float64         `plenc:"15"`
+	LS  []string          `plenc:"16"`
+	LSP []string          `plenc:"17,proto"`
+	LIn []In              `plenc:"18"`
+	LP  []*In             `plenc:"19"`
+	MSI map[string]int    `plenc:"20"`
+	MK  map[K]string      `plenc:"21"`
+	MP  map[string]string `plenc:"22,proto"`
+	MKP map[K]*In         `plenc:"23,proto"`
+	NS  null.String       `plenc:"24"`
+	NI  null.Int          `plenc:"25"`
+	NT  null.Time         `plenc:"26"`
+	NSI null.String       `plenc:"27,intern"`
+}
+
 // Named kinds.
 type MyInt int
 type MyString string
